@@ -13,7 +13,7 @@ import c01, c03, c05
 
 def base_programs(tier, sd):
     progs = []
-    want = {"nest", "nest3", "for", "select", "random", "err"}
+    want = {"nest", "nest3", "for", "select", "select-edge", "random", "err"}
     for c in c01.cases(tier, sd):
         f = c["fam"].split(":")[0]
         if f in want:
@@ -31,7 +31,9 @@ def base_programs(tier, sd):
         rest = [c for c in progs if c["fam"].split(":")[0] not in ("nest", "for")]
         rng.shuffle(rest)
         rng.shuffle(keep)
-        progs = keep[:500] + rest[:700]
+        edge = [c for c in rest if c["fam"].startswith("select-edge")]
+        rest = [c for c in rest if not c["fam"].startswith("select-edge")]
+        progs = keep[:500] + rest[:600] + edge[:160]
     for i, c in enumerate(progs):
         c["id"] = i + 1
     return progs
